@@ -5,6 +5,7 @@ from datetime import datetime
 from typing import TYPE_CHECKING
 
 from redis.asyncio.client import Pipeline, Redis
+from redis.exceptions import WatchError
 
 from repid.connections.abc import MessageBrokerT
 from repid.connections.redis import utils
@@ -103,24 +104,29 @@ class RedisMessageBroker(MessageBrokerT):
     async def reject(self, key: RoutingKeyT) -> None:
         logger.debug("Rejecting message ({routing_key}).", extra={"routing_key": key})
 
-        raw_params: list[bytes | None] = await self.conn.hmget(
-            mnc(key),
-            keys=["parameters", "_reject_to"],
-        )
-
-        if raw_params[0] is not None:
-            params = self.PARAMETERS_CLASS.decode(raw_params[0].decode())
-        else:  # pragma: no cover
-            params = self.PARAMETERS_CLASS()
-
-        if raw_params[1] is None:
-            # message isn't marked as being processed (e.g. it was already acked, nacked or
-            # requeued) - there is nothing to return to the queue
-            return
-
-        reject_to = raw_params[1].decode()
-
         async with self.conn.pipeline(transaction=True) as pipe:
+            # watch the message: if it is acked, nacked or requeued concurrently (e.g. by a call
+            # which was cancelled, but had already been sent), it must not be put back to a queue
+            await pipe.watch(mnc(key))
+
+            raw_params: list[bytes | None] = await pipe.hmget(
+                mnc(key),
+                keys=["parameters", "_reject_to"],
+            )
+
+            if raw_params[0] is not None:
+                params = self.PARAMETERS_CLASS.decode(raw_params[0].decode())
+            else:  # pragma: no cover
+                params = self.PARAMETERS_CLASS()
+
+            if raw_params[1] is None:
+                # message isn't marked as being processed (e.g. it was already acked, nacked or
+                # requeued) - there is nothing to return to the queue
+                return
+
+            reject_to = raw_params[1].decode()
+
+            pipe.multi()
             if reject_to == "dead":
                 self.__mark_dead(key, pipe)
             else:
@@ -131,7 +137,13 @@ class RedisMessageBroker(MessageBrokerT):
                     in_front=True,
                 )
             self.__unmark_processing(key, pipe)
-            await pipe.execute()
+            try:
+                await pipe.execute()
+            except WatchError:
+                logger.debug(
+                    "Message ({routing_key}) was changed while being rejected.",
+                    extra={"routing_key": key},
+                )
 
     async def requeue(
         self,
